@@ -73,6 +73,7 @@ FN_DIFF0, FN_DIFF1, FN_DIFF2, FN_DIFF3, FN_QUIT, FN_BLOCKSIZE, FN_BITSHIFT, FN_Q
 FNSIZE, ULONGSIZE, ENERGYSIZE, BITSHIFTSIZE, LPCQSIZE, LPCQUANT = 2, 2, 3, 2, 2, 5
 TYPE_AU1, TYPE_S16HL, TYPE_S16LH, TYPE_ULAW, TYPE_AU2 = 0, 3, 5, 7, 8
 NWRAP = 3
+CMD_NAMES = {0: "DIFF0", 1: "DIFF1", 2: "DIFF2", 3: "DIFF3", 7: "QLPC", 8: "ZERO"}
 N_QUICK, N_THOROUGH = 350, 20000
 DECODE_TIMEOUT_S = 10.0
 VECTORS = ["123_1pcbe", "123_1pcle", "123_1ulaw", "123_2pcbe", "123_2pcle", "123_2ulaw"]
@@ -314,6 +315,27 @@ def _gen_channel(rng, kind, n, ctx=None):
             seg = rng.normal(rng.choice([0, 0, 2000, -7000]), rng.choice([40, 4000]), min(ln, n - k)).astype(np.int64)
             x[k : k + ln] = (seg >> sh) << sh
             k += ln
+    elif kind in ("nonzero", "tiny_bursts"):
+        # (not in PCM_KINDS / ULAW_KINDS: used only by the forced command sequences and the short-block streams)
+        # "nonzero": no sample is zero (internal value 0), so that every carried-over history entry is non-zero;
+        # "tiny_bursts": runs of 1..6 zeros / non-zeros, so that blocks of 1..4 samples are often entirely zero
+        ctx = ctx or {}
+        if ctx.get("ftype") in (TYPE_AU1, TYPE_AU2):
+            x = rng.integers(0, 255, n).astype(np.int64)  # any code but 0xFF (internal value 0)
+            zero = 0xFF
+        else:
+            sh = int(ctx.get("nz_shift", 0))
+            amp = int(rng.choice([3, 200, 3000, 30000]))
+            x = (rng.integers(1, max(1, amp >> sh) + 1, n) * rng.choice([-1, 1], n)).astype(np.int64) << sh
+            zero = 0
+        if kind == "tiny_bursts":
+            k = 0
+            while k < n:
+                ln = int(rng.integers(1, 7))
+                if rng.random() < 0.45:
+                    x[k : k + ln] = zero
+                k += ln
+        return x
     elif kind == "u_random":
         return rng.integers(0, 256, n).astype(np.int64)
     elif kind == "u_quiet":
@@ -401,16 +423,29 @@ def _encode(rng, samples, s, stats, inject=None, hdr_ftype=None):
     hist = [[0] * nwrap for _ in range(nchan)]
     offs = [[0] * max(1, nmean) for _ in range(nchan)]
     bs, shift, pos, blk = B0, 0, 0, 0
+    # forced command sequence ("all command sequences a conforming encoder may emit"): script[k] = [block size,
+    # command(, QLPC order)] of block k for the channels in script_chans (None = all); after the script the encoder is free
+    script = s.get("script") or []
+    script_chans = s.get("script_chans")
+    tiny = bool(s.get("tiny_blocks"))
+    prev_block = {}  # channel -> (command, block size, history before it non-zero) of its previous block (statistics)
     while pos < n:
         if inject is not None and inject[0] == blk:
             bw.uvar(inject[1], FNSIZE)
-        want = bs
-        if rng.random() < s["p_midsize"]:
-            want = int(rng.integers(1, B0 + 1))
-        elif bs != B0 and rng.random() < 0.5:
-            want = B0
-        want = min(want, n - pos)
-        if want != bs or rng.random() < 0.01:
+        scripted = blk < len(script)
+        if scripted:
+            want = min(int(script[blk][0]), n - pos)
+            assert 1 <= want <= B0, "a conforming encoder never exceeds the header block size"
+            emit = want != bs
+        else:
+            want = bs
+            if rng.random() < s["p_midsize"]:
+                want = int(rng.integers(1, (min(B0, 4) if tiny else B0) + 1))
+            elif bs != B0 and rng.random() < 0.5:
+                want = B0
+            want = min(want, n - pos)
+            emit = want != bs or rng.random() < 0.01
+        if emit:
             bw.uvar(FN_BLOCKSIZE, FNSIZE)
             bw.ulong(want, slack())
             stats["blocksize_cmd"] += 1
@@ -446,7 +481,12 @@ def _encode(rng, samples, s, stats, inject=None, hdr_ftype=None):
             # --- command
             allzero = not any(x)
             can_lpc = maxnlpc > 0 and (bs >= nwrap or s.get("lpc_short_blocks", False))  # probe switch, off by default
-            if allzero and rng.random() < 0.7:
+            forced = script[blk] if scripted and (script_chans is None or ch in script_chans) else None
+            if forced is not None:
+                cmd = int(forced[1])
+                assert cmd != FN_ZERO or allzero, "ZERO forced on a block with non-zero samples"
+                assert cmd != FN_QLPC or can_lpc, "QLPC forced on a block shorter than the history / without LPC"
+            elif allzero and rng.random() < 0.7:
                 cmd = FN_ZERO
             elif can_lpc and rng.random() < s["p_lpc"]:
                 cmd = FN_QLPC
@@ -456,6 +496,16 @@ def _encode(rng, samples, s, stats, inject=None, hdr_ftype=None):
             else:
                 cmd = int(rng.integers(0, 4))
             stats["cmd"][cmd] = stats["cmd"].get(cmd, 0) + 1
+            if bs < nwrap and pos + bs < n:
+                key = "short_" + ("zero" if cmd == FN_ZERO else "coded")
+                stats[key] = stats.get(key, 0) + 1
+            prev = prev_block.get(ch)
+            if prev is not None:
+                stats.setdefault("pairs", set()).add((prev[0], prev[1] < nwrap, cmd, bs < nwrap))
+                if prev[0] == FN_ZERO and prev[1] < nwrap and prev[2] and (
+                    cmd in (FN_DIFF2, FN_DIFF3) and prev[1] < cmd or cmd == FN_QLPC):
+                    stats["zero_then_deep"] = stats.get("zero_then_deep", 0) + 1
+            prev_block[ch] = (cmd, bs, any(hist[ch]))
             bw.uvar(cmd, FNSIZE)
             if cmd != FN_ZERO:
                 if cmd == FN_DIFF0:
@@ -469,15 +519,19 @@ def _encode(rng, samples, s, stats, inject=None, hdr_ftype=None):
                         h[nwrap + i] - (3 * h[nwrap + i - 1] - 3 * h[nwrap + i - 2] + h[nwrap + i - 3]) for i in range(bs)
                     ]
                 else:
-                    order = int(rng.integers(1, maxnlpc + 1)) if rng.random() < 0.93 else int(rng.integers(0, maxnlpc + 1))
-                    style = rng.random()
-                    if style < 0.4:
-                        a = [int(v) for v in rng.integers(-32, 33, order)]
-                    elif style < 0.8:
-                        base = [[32], [64, -32], [96, -96, 32]][int(rng.integers(0, 3))]
-                        a = [(base[j] if j < len(base) else 0) + int(rng.integers(-3, 4)) for j in range(order)]
+                    if forced is not None:  # forced order, every lag really used (no zero coefficient)
+                        order = int(forced[2]) if len(forced) > 2 else maxnlpc
+                        a = [int(v) or 7 for v in rng.integers(-32, 33, order)]
                     else:
-                        a = [int(v) for v in rng.integers(-2, 3, order)]
+                        order = int(rng.integers(1, maxnlpc + 1)) if rng.random() < 0.93 else int(rng.integers(0, maxnlpc + 1))
+                        style = rng.random()
+                        if style < 0.4:
+                            a = [int(v) for v in rng.integers(-32, 33, order)]
+                        elif style < 0.8:
+                            base = [[32], [64, -32], [96, -96, 32]][int(rng.integers(0, 3))]
+                            a = [(base[j] if j < len(base) else 0) + int(rng.integers(-3, 4)) for j in range(order)]
+                        else:
+                            a = [int(v) for v in rng.integers(-2, 3, order)]
                     stats["lpc_orders"].add(order)
                     hm = [v - coffset for v in h]
                     res = []
@@ -535,6 +589,10 @@ def _new_stats():
         "shifted_blocks": 0,
         "max_run": 0,
         "nblocks": 0,
+        "short_zero": 0,
+        "short_coded": 0,
+        "zero_then_deep": 0,
+        "pairs": set(),
     }
 
 
@@ -565,6 +623,15 @@ def _build(case, stats=None):
     s = _draw_settings(rng, case.get("tier", "quick"), case.get("force"))
     cols = [_gen_channel(rng, k, s["n"], s) for k in s["kinds"]]
     samples = np.stack(cols, axis=1)
+    if s.get("script"):  # a forced ZERO block encodes silence: internal value 0 (PCM 0, mu-law code 0xFF)
+        zero = 0xFF if s["ftype"] in (TYPE_AU1, TYPE_AU2) else 0
+        chans = range(s["nchan"]) if s.get("script_chans") is None else s["script_chans"]
+        pos = 0
+        for ent in s["script"]:
+            if ent[1] == FN_ZERO:
+                for ch in chans:
+                    samples[pos : pos + ent[0], ch] = zero
+            pos += ent[0]
     inject = tuple(case["inject"]) if case.get("inject") else None
     stream = _encode(rng, samples, s, stats, inject=inject, hdr_ftype=case.get("hdr_ftype"))
     if case.get("version_byte") is not None:
@@ -768,6 +835,14 @@ def _check_roundtrip(case, tmpdir, stats=None):
     s, samples, blob = _build(case, stats)
     mu = s["ftype"] in (TYPE_AU1, TYPE_AU2)
     fails = []
+    seq = ""
+    if s.get("script"):
+        seq = "; forced blocks%s: %s (history length %d)" % (
+            "" if s.get("script_chans") is None else " on channel(s) %s" % s["script_chans"],
+            " ".join("%s[%d]" % (CMD_NAMES[e[1]] + (("/%d" % e[2]) if len(e) > 2 else ""), e[0]) for e in s["script"]),
+            max(s["maxnlpc"], NWRAP))
+    elif s.get("tiny_blocks"):
+        seq = "; blocks of 1..4 samples mixed with full blocks, zero runs of 1..6 samples (history length %d)" % max(s["maxnlpc"], NWRAP)
     routes = [("stream", None)]
     if case.get("file"):
         routes.append(("file", None))
@@ -789,6 +864,18 @@ def _check_roundtrip(case, tmpdir, stats=None):
         if r is not True:
             suffix, msg = r
             clause = "C13.roundtrip." + (suffix or route)
+            if s.get("script") and exc is None and out is not None and out.shape == exp.shape:
+                # which forced block holds the first wrong sample, and what preceded it on that channel
+                bad = np.argwhere(out.astype(np.float64) != exp.astype(np.float64))
+                if len(bad):
+                    row, pos = int(bad[0][0]), 0
+                    for b, e in enumerate(s["script"]):
+                        if row < pos + e[0]:
+                            msg += " (sample %d of block %d, %s[%d]%s)" % (
+                                row - pos, b, CMD_NAMES[e[1]], e[0],
+                                "" if b == 0 else ", the block after %s[%d]" % (CMD_NAMES[s["script"][b - 1][1]], s["script"][b - 1][0]))
+                            break
+                        pos += e[0]
             try:
                 sd = _spec_decode(blob[1024:], s["n"], s["nchan"])
                 agree = sd.shape == samples.shape and bool((sd == samples).all())
@@ -800,7 +887,7 @@ def _check_roundtrip(case, tmpdir, stats=None):
                     "%s [route=%s dtype=%s v%d ftype=%d nchan=%d nmean=%d maxnlpc=%d bs=%d n=%d signals=%s; spec decoder reproduces input: %s]"
                     % (msg, route, dtype, s["version"], s["ftype"], s["nchan"], s["nmean"], s["maxnlpc"], s["blocksize"], s["n"],
                        "/".join(s["kinds"]) + (" (block sums / mean-window sums on or next to exact multiples of the block length / mean length: running-mean division)"
-                                               if "mean_boundary" in s["kinds"] else ""), agree),
+                                               if "mean_boundary" in s["kinds"] else "") + seq, agree),
                 )
             )
     return fails, s, len(blob)
@@ -1041,6 +1128,81 @@ def _grid_cases(seed, tier):
     return cases
 
 
+SEQ_FIRST = [FN_ZERO, FN_DIFF0, FN_DIFF1, FN_DIFF2, FN_DIFF3, FN_QLPC]
+SEQ_SECOND = [FN_DIFF3, FN_QLPC, FN_DIFF2, FN_DIFF1, FN_DIFF0, FN_ZERO]
+SEQ_MAXNLPC = [0, 8, 1, 2, 3]
+N_TINY_QUICK, N_TINY_THOROUGH = 120, 3000
+
+
+def _seq_sizes(maxnlpc):
+    nwrap = max(maxnlpc, NWRAP)
+    return sorted({1, 2, 3, nwrap - 1, nwrap, nwrap + 1})
+
+
+def _seq_cases(seed, tier):
+    """"for all ... block sizes ... and every block command (DIFF0-3, QLPC of any order in blocks no shorter than the
+    predictor history, ZERO, BLOCKSIZE, ...)" over "all command sequences a conforming encoder may emit ... block size
+    ... per block": the decoder state carried from block to block (history, means, block size) links CONSECUTIVE blocks
+    of different commands and different sizes.  One stream per (first command A, its block size k, maximum LPC order,
+    second command B):
+
+        DIFF1[L]  A[k]  B[L]  A[k]  B[k2]  C[L]
+
+    with L = history length + 2 (the header block size), k over {1, 2, 3, history - 1, history, history + 1}, k2 in {1, 2}
+    (L when B is QLPC), B's QLPC order the maximum one, C = DIFF3 or QLPC of order min(maxnlpc, k2 + 1) (a predictor that
+    reaches back past the short block before it); every block but a forced ZERO one consists of non-zero samples, so
+    the history carried into every short block is non-zero.  So every ordered pair (A short, B long), (B long, A short),
+    (A short, B short) of {DIFF0..3, QLPC, ZERO} occurs for every k and maxnlpc in {0, 1, 2, 3, 8} (QLPC only where the
+    statement allows it: maxnlpc > 0 and block >= history).  Version, mean length, sample type, channel count (and
+    whether one channel or all follow the forced sequence) and bit shifts are drawn per stream."""
+    rng = _common.make_rng(seed, "C13.seqgrid")
+    cases = []
+    idx = 0
+    for A in SEQ_FIRST:
+        for ki in range(6):
+            for maxnlpc in SEQ_MAXNLPC:
+                nwrap = max(maxnlpc, NWRAP)
+                sizes = _seq_sizes(maxnlpc)
+                if ki >= len(sizes):
+                    continue
+                k = sizes[ki]
+                for B in SEQ_SECOND:
+                    if FN_QLPC in (A, B) and maxnlpc == 0:
+                        continue
+                    if A == FN_QLPC and k < nwrap:
+                        continue
+                    L = nwrap + 2
+                    k2 = L if B == FN_QLPC else 1 + idx % 2
+                    if maxnlpc and idx % 3:
+                        C = [L, FN_QLPC, min(maxnlpc, k2 + 1)]
+                    else:
+                        C = [L, FN_DIFF3]
+                    ent = lambda size, cmd: [size, cmd, maxnlpc] if cmd == FN_QLPC else [size, cmd]  # noqa: E731
+                    script = [[L, FN_DIFF1], ent(k, A), ent(L, B), ent(k, A), ent(k2, B), C]
+                    nchan = int(rng.choice([1, 1, 2, 3]))
+                    ftype = int(rng.choice([TYPE_S16HL, TYPE_S16HL, TYPE_S16HL, TYPE_S16LH, TYPE_S16LH, TYPE_AU1, TYPE_AU2]))
+                    shifted = bool(rng.random() < 0.3)
+                    force = dict(version=int(rng.choice([1, 2])), nmean=int(rng.choice([0, 0, 1, 2, 4])), ftype=ftype,
+                                 nchan=nchan, maxnlpc=maxnlpc, blocksize=L, n=sum(e[0] for e in script), kinds=["nonzero"],
+                                 script=script, p_midsize=0.0, p_under=0.0, nz_shift=2 if shifted else 0,
+                                 shift_policy="max" if shifted else "none", ulong_slack=False)
+                    if nchan > 1 and rng.random() < 0.5:
+                        force["script_chans"] = [int(rng.integers(0, nchan))]
+                    cases.append({"kind": "rt", "seed": seed, "idx": idx, "salt": "seq", "tier": tier, "force": force})
+                    idx += 1
+    return cases
+
+
+def _tiny_case(seed, idx, tier):
+    """the randomised encoder with "block size ... per block" drawn from 1..4 samples (shorter than / equal to / just
+    over the history) mixed with full blocks, on signals with zero runs of 1..6 samples (so that ZERO is often chosen
+    for a short block), all header settings random but a small header block size"""
+    B0, maxnlpc = [(4, 0), (5, 1), (6, 2), (8, 3), (9, 8), (12, 8), (12, 5), (7, 0), (16, 4), (5, 3)][idx % 10]
+    force = dict(blocksize=B0, maxnlpc=maxnlpc, p_midsize=(0.6, 0.4, 0.8)[idx % 3], tiny_blocks=True, kinds=["tiny_bursts"],
+                 n=40 + 7 * (idx % 13), p_under=0.0, shift_policy=("none", "none", "max", "random")[idx % 4], nz_shift=(0, 0, 3)[idx % 3])
+    return {"kind": "rt", "seed": seed, "idx": idx, "salt": "tiny", "tier": tier, "force": force}
+
+
 def _random_case(seed, idx, tier):
     c = {"kind": "rt", "seed": seed, "idx": idx, "salt": "rt", "tier": tier}
     if idx % 3 == 0:
@@ -1117,8 +1279,11 @@ def run(tier: str, seed: int) -> dict:
     features = {"refill": 0, "file_route": 0, "mu_law": 0, "v1": 0, "v2": 0, "multi": 0}
     try:
         # 0. self-test of the spec encoder against the spec decoder (no real code involved)
-        for i in range(3 if quick else 25):
-            c = {"kind": "rt", "seed": seed, "idx": i, "salt": "self", "tier": "quick"}
+        seq_cases = _seq_cases(seed, tier)
+        n_tiny = N_TINY_QUICK if quick else N_TINY_THOROUGH
+        self_cases = [{"kind": "rt", "seed": seed, "idx": i, "salt": "self", "tier": "quick"} for i in range(3 if quick else 25)]
+        self_cases += seq_cases[:: 23 if quick else 3] + [_tiny_case(seed, i, tier) for i in range(0, n_tiny, 11 if quick else 7)]
+        for c in self_cases:
             s, samples, blob = _build(c)
             sd = _spec_decode(blob[1024:], s["n"], s["nchan"])
             if sd.shape != samples.shape or not (sd == samples).all():
@@ -1162,7 +1327,9 @@ def run(tier: str, seed: int) -> dict:
         )
 
         # 2. round trips: the deterministic grid first, then the error clauses, then random streams
-        cases = _grid_cases(seed, tier)
+        # (the forced command sequences come first: small streams, ~1 ms each)
+        cases = seq_cases + _grid_cases(seed, tier) + [_tiny_case(seed, i, tier) for i in range(n_tiny)]
+        n_seq, n_grid = len(seq_cases), len(cases) - len(seq_cases) - n_tiny
         errors_pending = True
         target = N_QUICK if quick else N_THOROUGH
         idx = 0
@@ -1181,7 +1348,7 @@ def run(tier: str, seed: int) -> dict:
                         f = _check_error(ecase)
                         if f:
                             fail(f[0], ecase, f[1])
-                if n_rt >= target or col.out_of_time() or col.too_many_failures() or _TIMEOUTS[0] >= 3:
+                if idx >= target - n_grid or col.out_of_time() or col.too_many_failures() or _TIMEOUTS[0] >= 3:
                     break
                 case = _random_case(seed, idx, tier)
                 idx += 1
@@ -1189,7 +1356,7 @@ def run(tier: str, seed: int) -> dict:
             fails, s, nbytes = _check_roundtrip(case, tmpdir, stats)
             n_rt += 1
             nontrivial = any(stats["cmd"].get(k, 0) > before.get(k, 0) for k in (0, 1, 2, 3, FN_QLPC))
-            col.case(case, nontrivial=nontrivial, sample=case if n_rt in (1, 60) else None)
+            col.case(case, nontrivial=nontrivial, sample=case if n_rt in (1, n_seq + 60) else None)
             n_total_samples += s["n"] * s["nchan"]
             longest = max(longest, nbytes - 1024)
             features["refill"] += nbytes - 1024 > 16384
@@ -1199,7 +1366,23 @@ def run(tier: str, seed: int) -> dict:
             features["multi"] += s["nchan"] > 1
             for clause, msg in fails:
                 fail(clause, case, msg)
-        names = {0: "DIFF0", 1: "DIFF1", 2: "DIFF2", 3: "DIFF3", 7: "QLPC", 8: "ZERO"}
+        names = CMD_NAMES
+        pairs = stats["pairs"]
+        six = sorted(CMD_NAMES)
+        missing = [
+            "%s[%s]->%s[%s]" % (names[a], "short" if sa else "full", names[b], "short" if sb else "full")
+            for a in six for sa in (True, False) for b in six for sb in (True, False)
+            if (a, sa, b, sb) not in pairs and not (sa and a == FN_QLPC) and not (sb and b == FN_QLPC)
+        ]
+        col.note(
+            "consecutive blocks of one channel: %d forced-sequence streams (DIFF1[L] A[k] B[L] A[k] B[k2] C[L]; A, B over "
+            "DIFF0-3/QLPC/ZERO, k over {1,2,3,history-1,history,history+1}, maxnlpc over %s) + %d short-block random streams; "
+            "mid-stream blocks shorter than the history: %d ZERO, %d residual-coded; ZERO blocks shorter than a non-zero "
+            "history followed by a predictor reaching back past them (DIFF2/DIFF3 deeper than the block, QLPC): %d; ordered "
+            "(command, shorter than history?) pairs of consecutive blocks seen: %d of %d allowed (QLPC never short)%s"
+            % (n_seq, SEQ_MAXNLPC, n_tiny, stats["short_zero"], stats["short_coded"], stats["zero_then_deep"],
+               len(pairs), 11 * 11, "" if not missing else "; NOT seen: " + ", ".join(missing))
+        )
         col.note(
             "round trips: %d streams, %d samples, %.1f s; commands %s; QLPC orders %s; BLOCKSIZE cmds %d (mid-stream %d, "
             "short final %d, blocks shorter than history %d); BITSHIFT cmds %d, shifted blocks %d; longest unary run %d bits; "
